@@ -17,6 +17,9 @@ var Steps uint64
 // schedActive is true while a Scheduler run is in progress.
 var schedActive bool
 
+// Scheduling reports whether a scheduled run is in progress.
+func Scheduling() bool { return schedActive }
+
 // Fuel, when positive, is the number of step points the current call may still
 // execute; reaching zero panics with ErrFuel (a deterministic guard against
 // generated programs that run exponentially long). Ignored under the scheduler,
